@@ -50,7 +50,8 @@ def run(tier, seed, only=None):
                       ', non-NULL assignments; all NULL shapes of n and g in upd_nulls over the attributes n, g',
         'session modes': ['optimistic (main)', 'get_for_update in optimistic / non-optimistic session (a,n,g read; a,x,g written)',
                           'db_session(optimistic=False)', 'PostgreSQL provider + builder, pyformat parameters (a,n,g)'],
-        'tracking kernel': 'arbitrary masks in [0,64) x attribute x {descriptor read, assignment, query read}',
+        'tracking kernel': 'bits of one attribute arbitrary, all others all-clear or all-set; step in {descriptor read, assignment, query read, save by flush()}',
+        'two commits': 'upd_twice: a,n,g read; a,x assigned; commit(); a re-read or not; x,g assigned; arbitrary current row at the second UPDATE',
     }
     rep.assumptions = [
         'environment argument: concurrent sessions influence the session only through the row its UPDATE finds (arbitrary current row)',
